@@ -103,16 +103,57 @@ Fixpoint finish_all (ch : list label -> key -> list rank) (mt : label -> minfo) 
            end
   end.
 
+(* schedule elements: tid = one step of that thread; (tid kind n) = that thread runs until it has executed n more steps of
+   the given kind or has finished: kind 0 any step, 1 the call itself (entry point read), 2 never (= run to the end),
+   5 _defns update, 11 new table, 13 swap, 15 ___MAP re-pointed, 16 register, 17 flag, 21 candidate codes (mro), 22 one write *)
+Definition step_kind (mt : label -> minfo) (l : local) : nat :=
+  match l_pc l with
+  | PStart (OCall _) => 1
+  | PStart _ => 5
+  | PComp CNewMap _ => 11
+  | PComp CSwap _ => 13
+  | PComp (CAdapt d _) _ => if negb (is_bad_adapt mt d) && m_recoded (mt d) then 15 else 0
+  | PComp (CReg _ _) _ => 16
+  | PComp CFlag _ => 17
+  | PMro _ _ _ => 21
+  | PWrite _ _ _ _ (_ :: _) => 22
+  | _ => 0
+  end.
+
+Fixpoint run_seg (ch : list label -> key -> list rank) (mt : label -> minfo) (fuel : nat) (s : shared) (p : list local)
+                 (tid kind n : nat) : shared * list local :=
+  match fuel with
+  | 0 => (s, p)
+  | S f =>
+      match n, nth_error p tid with
+      | 0, _ => (s, p)
+      | _, None => (s, p)
+      | S m, Some l =>
+          if is_done l then (s, p)
+          else let k := step_kind mt l in
+               let '(s', p') := sched_step ch mt s p tid in
+               run_seg ch mt f s' p' tid kind (if Nat.eqb kind 0 || (Nat.eqb k kind && negb (Nat.eqb k 0)) then m else S m)
+      end
+  end.
+
+Fixpoint run_segments (ch : list label -> key -> list rank) (mt : label -> minfo) (s : shared) (p : list local) (sch : list sx) : shared * list local :=
+  match sch with
+  | [] => (s, p)
+  | A z :: r => let '(s', p') := sched_step ch mt s p (Z.to_nat z) in run_segments ch mt s' p' r
+  | L l :: r => let '(s', p') := run_seg ch mt FUEL s p (sx_nat (nth 0 l (A 0%Z))) (sx_nat (nth 1 l (A 0%Z))) (sx_nat (nth 2 l (A 0%Z))) in
+                run_segments ch mt s' p' r
+  end.
+
 Definition run_sched (s : sx) : sx :=
   let rows := map mrow_of (sx_list (sx_arg 0 s)) in
   let defs0 := map sx_nat (sx_list (sx_arg 1 s)) in
   let setup := map op_of (sx_list (sx_arg 2 s)) in
   let tops := map op_of (sx_list (sx_arg 3 s)) in
-  let sch := map sx_nat (sx_list (sx_arg 4 s)) in
+  let sch := sx_list (sx_arg 4 s) in
   let afterops := map op_of (sx_list (sx_arg 5 s)) in
   let ch := chain_tab rows in let mt := meth_tab rows in
   let s0 := scn_state rows defs0 setup in
-  let '(s1, p1) := run_schedule ch mt s0 (map start tops) sch in
+  let '(s1, p1) := run_segments ch mt s0 (map start tops) sch in
   let '(s2, p2) := finish_all ch mt 0 (length p1) s1 p1 in
   L [ L (map (fun l => of_outcome (result_of l)) p2);
       L (map of_outcome (snd (run_ops ch mt FUEL s2 afterops)));
